@@ -197,6 +197,8 @@ class Scheduler:
             for m in sorted(templates):
                 if m in surf["methods"]:
                     plan.append(path + [{"call": m, "args": self._call_args(templates[m], hv)}])
+            if cls in PARTITION_CLASSES[:2]:
+                plan.append(path + [{"repr": 1}])  # what a console session does first
         r.shuffle(plan)
         return plan
 
